@@ -333,7 +333,86 @@ func (c *fuzzComp) wedge(k, v int) ([]string, string, bool) {
 	return nil, "alive answered=1", true
 }
 
+// agentReply: a real agent (agent.Agent over pool.Remote over a jsonrpc2.Remote on a pipe) whose pool - played by the
+// harness - answers its connect, keep-alive and peer calls with every odd reply shape.  The agent may fail the call, stop
+// its loop or carry on; it must not panic (the panic would be on the agent's own goroutines: the process dies).
+func (c *fuzzComp) agentReply(v int) ([]string, string, bool) {
+	a, b := net.Pipe()
+	defer a.Close()
+	node := &recNode{failAt: -1, ua: ethnode.UserAgent{Kind: ethnode.Geth}}
+	ag := &agent.Agent{EthNode: node, NumHosts: 3, UpdateInterval: 15 * time.Millisecond}
+	srv := &jsonrpc2.Server{}
+	var svc agent.Service = ag
+	srv.RegisterMethod("vipnode_whitelist", svc, "Whitelist")
+	remote := &jsonrpc2.Remote{Codec: jsonrpc2.IOCodec(b), Client: &jsonrpc2.Client{}, Server: srv}
+	go remote.Serve()
+	defer remote.Close()
+	shapes := []string{`"result":null`, `"result":null,"error":null`, `"error":null`, `"result":[]`, `"result":"str"`, `"result":42`, `"result":{}`,
+		`"result":{"balance":null,"invalid_peers":null,"active_peers":null,"peers":null}`, `"result":{"peers":[null]}`, `"result":{"peers":[{}],"balance":{}}`,
+		`"result":{"active_peers":"x","invalid_peers":7}`, `"result":{"balance":{"credit":"NaN","deposit":null}}`, `"result":{"peers":[{"id":"","uri":"://"}]}`,
+		`"result":{"invalid_peers":["",null,"@","enode://@"],"active_peers":[null]}`, `"result":true`, `"error":{"code":"x"}`, `"error":"str"`, `"error":{}`}
+	hostile := shapes[v%len(shapes)]
+	target := []string{"vipnode_update", "vipnode_peer", "vipnode_connect"}[(v/len(shapes))%3]
+	seen := map[string]int{}
+	go func() {
+		sc := bufio.NewScanner(a)
+		sc.Buffer(make([]byte, 1<<16), 1<<22)
+		for sc.Scan() {
+			var m struct {
+				ID     json.RawMessage `json:"id"`
+				Method string          `json:"method"`
+			}
+			if json.Unmarshal(sc.Bytes(), &m) != nil || m.Method == "" {
+				continue
+			}
+			seen[m.Method]++
+			body := `"result":{}`
+			switch m.Method {
+			case "vipnode_connect":
+				body = `"result":{"pool_version":"fuzz"}`
+			case "vipnode_update":
+				// ask for more peers than the node has, so that the agent goes on to vipnode_peer
+				body = `"result":{"active_peers":[],"invalid_peers":[],"balance":{"credit":"5","deposit":"0"}}`
+			case "vipnode_peer":
+				body = `"result":{"peers":[]}`
+			}
+			// the first call of the targeted method is answered properly (except connect), later ones with the odd shape
+			if m.Method == target && (seen[m.Method] > 1 || target == "vipnode_connect") {
+				body = hostile
+			}
+			a.Write([]byte(`{"jsonrpc":"2.0","id":` + string(m.ID) + `,` + body + "}\n"))
+		}
+	}()
+	key := nodeIdents[6].key
+	p := pool.Remote(remote, key)
+	started := make(chan error, 1)
+	go func() { started <- ag.Start(p) }()
+	select {
+	case err := <-started:
+		if err == nil {
+			time.Sleep(120 * time.Millisecond) // several keep-alive rounds against the odd replies
+			stopped := make(chan struct{})
+			go func() { ag.Stop(); close(stopped) }()
+			select {
+			case <-stopped:
+			case <-time.After(2 * time.Second):
+				return nil, "wedged: the agent could not be stopped after odd replies from its pool", true
+			}
+		}
+	case <-time.After(3 * time.Second):
+		return nil, "wedged: the agent's Start never returned", true
+	}
+	return []string{"shape=" + strings.Replace(hostile, " ", "", -1), "target=" + target}, "alive", true
+}
+
 func (c *fuzzComp) Exec(t []string) (extra []string, out string, eff bool) {
+	if t[0] == "agentreply" {
+		var v int
+		if s, ok := FindStr("v", t); ok {
+			fmt.Sscan(s, &v)
+		}
+		return c.agentReply(v)
+	}
 	if t[0] == "wedge" {
 		var k, v int
 		if s, ok := FindStr("k", t); ok {
@@ -445,5 +524,9 @@ func (c *fuzzComp) Gen(r *rand.Rand, idx int, emit func(string)) {
 	}
 	if idx%10 == 9 {
 		emit(fmt.Sprintf("wedge k=%d v=%d", 1+r.Intn(4), r.Intn(100)))
+	}
+	// the other direction: an agent and the replies its pool sends
+	for i := 0; i < 3; i++ {
+		emit(fmt.Sprintf("agentreply v=%d", r.Intn(54)))
 	}
 }
